@@ -371,6 +371,10 @@ func c01regression() []Spec {
 	out = append(out, Spec{Nodes: []PNode{src(257, 3), {Op: "map", In: []int{0}, Out: []string{"uint16", "string", "int64"}, Src: []int{-1, 1, -1}, Mod: 4, Salt: 1}, {Op: "prefixed", In: []int{1}, P: 2}, {Op: "reduce", In: []int{2}, Fold: "sum"}}})
 	// fold then scan
 	out = append(out, Spec{Nodes: []PNode{src(129, 2), {Op: "fold", In: []int{0}, Salt: 4}, {Op: "writerfunc", In: []int{1}}, {Op: "scan", In: []int{2}}}})
+	// Reduce whose merge inputs straddle the vector size: every producer sends each output shard
+	// several hundred distinct keys, so the merging reader refills its input buffers many times
+	// (index 27: also run on the distributed executor in the quick tier)
+	out = append(out, Spec{Nodes: []PNode{{Op: "readerfunc", Shards: 3, Rows: 9000, Out: []string{"int", "int64"}, Salt: 12, Mod: 4000, Chunks: []int{97}}, {Op: "reduce", In: []int{0}, Fold: "sum", Shards: 2}}})
 	return out
 }
 
